@@ -284,6 +284,8 @@ SIGNATURES = {
     "lazy-static-dropped-at-main-exit": lambda p, kind, o: verdict(o) == "lazyShutdown" and unjoined_lazy(p),
     # F11: a failing iteration drops the closure of a thread that never started, and the closure owns a loom handle
     "unstarted-closure-dropped-outside": lambda p, kind, o: kind == "abort" and has(p, "spawnown"),
+    # F25: loom's internal modification-order assertion
+    "atomic-mo-assertion": lambda p, kind, o: verdict(o).startswith("internal:10") or o.startswith("internal:10"),
     # F12: a leaked raw allocation aborts the process instead of reporting "Allocation leaked"
     "raw-alloc-leak-abort": lambda p, kind, o: kind == "abort" and has(p, "alloc"),
 }
